@@ -244,6 +244,15 @@ func (r *runner) finalize() {
 			c.v.Observed = observedOf(c.res, built[c.res.Dir])
 			continue
 		}
+		if ff.violation() && c.v.Shrunk {
+			// the toolchain rejects the minimal input too, in other words than the in-process type checker used
+			// (e.g. cmd/compile reads export data, which lacks unexported names: `undefined: pb._Item` where go/types
+			// on source says `name _Item not exported`): the minimal input stands, the toolchain's verdict names it
+			r.count("shrink.confirmed-with-other-class")
+			c.v.Finding, c.v.Head = ff, ff.head()
+			c.v.Observed = observedOf(c.res, built[c.res.Dir])
+			continue
+		}
 		// the minimal input is not confirmed by the toolchain: fall back to the original input
 		r.count("shrink.unconfirmed")
 		fmt.Printf("c01: minimal input of %s not confirmed by the toolchain (%s): reporting the original input\n", c.v.Head, orStr(ff.head(), "ok"))
